@@ -786,7 +786,8 @@ pub fn rln_witness_to_bigint_json(rln_witness: &RLNWitnessInput) -> Result<serde
 }
 
 pub fn message_id_range_check(message_id: &Fr, user_message_limit: &Fr) -> Result<()> {
-    if message_id > user_message_limit {
+    // The circuit requires message_id < user_message_limit and message_id to fit in 16 bits
+    if message_id >= user_message_limit || message_id >= &Fr::from(1u64 << 16) {
         return Err(color_eyre::Report::msg(
             "message_id is not within user_message_limit",
         ));
